@@ -16,3 +16,6 @@ func raceSync(p unsafe.Pointer)    {}
 func RaceErrors() int              { return 0 }
 func RaceDisable()                 {}
 func RaceEnable()                  {}
+
+func HandOver(p unsafe.Pointer) {}
+func TakeOver(p unsafe.Pointer) {}
